@@ -54,6 +54,7 @@ K_DER = 2048       # derivative correspondence, in eps*max|y|/h^k*|pref|
 K_OVER = 256       # rounding-level overshoot / monotonicity slack of the oracle
 K_TAY = 1024       # Taylor consistency of reported derivatives (sum-of-terms scale)
 K_2D = 96
+K_ALLOW = 4         # 2-D: factor on the a-priori rounding bound allowance_2d (weights times corner magnitudes)
 
 INF = math.inf
 
@@ -376,7 +377,7 @@ def generate(tier, seed, ctx):
     for k in range(700 if thorough else 45):
         nx = rng.randint(3, 6) if k % 3 else rng.randint(7, 30)
         ny = rng.randint(3, 6) if k % 2 else rng.randint(7, 30)
-        fam = ["mixed", "smooth", "bil", "plateau", "unit"][k % 5]
+        fam = ["mixed", "smooth", "bil", "plateau", "unit", "mixmag"][k % 6]
         xdim = ydim = fdim = -1.0
         if fam == "bil":
             sx = 2.0 ** rng.randint(-6, 4); sy = 2.0 ** rng.randint(-6, 4)
@@ -402,6 +403,15 @@ def generate(tier, seed, ctx):
             ys = gen_xs(rng, ny, rng.choice(["jitter", "wild", "ratio9", "offset", "log"]))
             if fam == "mixed":
                 F = [[mixed_magnitude(rng) for _ in range(ny)] for _ in range(nx)]
+            elif fam == "mixmag":
+                # strongly mixed magnitudes in NEIGHBOURING entries: 1e20 next to 1, 1e-20 next to 1, sign changes
+                mags = rng.choice([[1e20, 1.0], [1e-20, 1.0], [1e20, 1.0, 1e-20], [1e20, 1e-20], [1e12, 1.0, 1e-12]])
+                par = rng.randint(0, 1)
+                def ent(i, j):
+                    m = mags[(i + j + par) % len(mags)] if rng.random() < 0.8 else rng.choice(mags)
+                    sg = rng.choice([-1.0, 1.0]) if rng.random() < 0.5 else 1.0
+                    return sg * m * (rng.choice([1.0, 2.0, 5.0, 0.3, 0.7]) if rng.random() < 0.7 else rng.uniform(1, 10))
+                F = [[ent(i, j) for j in range(ny)] for i in range(nx)]
             elif fam == "smooth":
                 kx = rng.uniform(1, 9) / (xs[-1] - xs[0]); ky = rng.uniform(1, 9) / (ys[-1] - ys[0]); A = 10.0 ** rng.uniform(-3, 3)
                 F = [[A * math.sin(kx * (x - xs[0])) * math.cos(ky * (y - ys[0])) for y in ys] for x in xs]
@@ -412,7 +422,24 @@ def generate(tier, seed, ctx):
         Q = []
         cells = [(i, j) for i in range(nx - 1) for j in range(ny - 1)]
         if len(cells) > 12:
-            cells = rng.sample(cells, 10) + [(0, 0), (nx - 2, ny - 2)]
+            cells = rng.sample(cells, 8) + [(0, 0), (nx - 2, ny - 2), (nx - 2, rng.randrange(ny - 1)), (rng.randrange(nx - 1), ny - 2),
+                                            (nx - 2, 0), (0, ny - 2)]
+        # every node of the grid, INCLUDING the last row and the last column (t == 1 or u == 1 there)
+        if nx * ny <= 150:
+            nodes = [(a, b) for a in range(nx) for b in range(ny)]
+        else:
+            nodes = ([(nx - 1, b) for b in range(ny)] + [(a, ny - 1) for a in range(nx)] + [(0, b) for b in range(ny)]
+                     + [(a, 0) for a in range(nx)] + [(rng.randrange(nx), rng.randrange(ny)) for _ in range(40)])
+        Q += [(xs_s[a], ys_s[b]) for a, b in nodes]
+        # points on the last grid lines between two nodes, and next to them
+        for b in (range(ny - 1) if ny <= 14 else rng.sample(range(ny - 1), 12)):
+            yy = ys_s[b] + (ys_s[b + 1] - ys_s[b]) * rng.uniform(0.05, 0.95)
+            if ys_s[b] < yy < ys_s[b + 1]:
+                Q += [(xs_s[-1], yy), (na(xs_s[-1], -INF), yy), (xs_s[0], yy)]
+        for a in (range(nx - 1) if nx <= 14 else rng.sample(range(nx - 1), 12)):
+            xx = xs_s[a] + (xs_s[a + 1] - xs_s[a]) * rng.uniform(0.05, 0.95)
+            if xs_s[a] < xx < xs_s[a + 1]:
+                Q += [(xx, ys_s[-1]), (xx, na(ys_s[-1], -INF)), (xx, ys_s[0])]
         for (i, j) in cells:
             a, b, c, d = xs_s[i], xs_s[i + 1], ys_s[j], ys_s[j + 1]
             Q += [(a, c), (b, c), (a, d), (b, d)]
@@ -696,6 +723,25 @@ def oracle_1d(P, vals, ctx):
 # property oracle, 2-D
 # ------------------------------------------------------------------------------------------------
 
+def allowance_2d(xs, ys, c, i, j, x, y):
+    """A-priori bound of the rounding error of the four-term sum (1-t)(1-u)f0 + t(1-u)f1 + t u f2 + (1-t) u f3 as coded
+    (without prefactor).  t = fl(fl(x-x_i)/fl(x_i+1-x_i)) carries <= 3 eps relative error and 1-t one more rounding, so each
+    computed weight factor is off by <= 4.5 eps ABSOLUTE -- unless the point lies exactly on a grid line of the cell, where
+    t (u) is exactly 0 or 1 in double.  Products and the three additions add <= 6 eps * sum |w_i f_i| (this also covers the
+    rounding of the product with the prefactor).  At a node every term but one is exactly 0: the bound is a few eps*|f|."""
+    t = (Fraction(x) - Fraction(xs[i])) / (Fraction(xs[i + 1]) - Fraction(xs[i]))
+    u = (Fraction(y) - Fraction(ys[j])) / (Fraction(ys[j + 1]) - Fraction(ys[j]))
+    dt = 0 if (x == xs[i] or x == xs[i + 1]) else Fraction(9, 2) * EPS
+    du = 0 if (y == ys[j] or y == ys[j + 1]) else Fraction(9, 2) * EPS
+    T = [1 - t, t, t, 1 - t]; U = [1 - u, 1 - u, u, u]
+    a = 0
+    for k in range(4):
+        w = abs(T[k] * U[k])
+        dw = dt * (abs(U[k]) + du) + du * abs(T[k])
+        a += (dw + 6 * EPS * w) * abs(c[k])
+    return a
+
+
 def oracle_2d(P, vals, ctx):
     out = []
     xs = scaled(P["xs0"], P["xdim"]); ys = scaled(P["ys0"], P["ydim"])
@@ -714,21 +760,25 @@ def oracle_2d(P, vals, ctx):
         Fm = max(abs(t) for t in c)
         fv = Fraction(v)
         inside = xs[0] <= x <= xs[-1] and ys[0] <= y <= ys[-1]
-        if x == xs[i] and y == ys[j]:
-            if abs(fv - fp * c[0]) > 2 * EPS * abs(fp * c[0]):
-                out.append(fail("prop", "2-D: grid value not returned at a grid node", "(%d,%d) value=%r expected=%r" % (i, j, v, float(fp * c[0]))))
-        elif inside and (x in (xs[i], xs[i + 1])) and (y in (ys[j], ys[j + 1])):
+        onx = x == xs[i] or x == xs[i + 1]
+        ony = y == ys[j] or y == ys[j + 1]
+        if onx and ony:
+            # a grid node (also in the last row / column): the weights are exactly 0/1 in double, the four-term sum is
+            # exactly the tabulated value, one rounding in the product with the prefactor -> bit-identical
             ii = i + (x == xs[i + 1]); jj = j + (y == ys[j + 1])
-            e = abs(fv - fp * Fraction(F[ii][jj]))
-            if e > K_2D * EPS * Fm * ap:
-                out.append(fail("prop", "2-D: grid value not returned at a grid node (last row/column)", "(%d,%d) value=%r" % (ii, jj, v)))
+            ctx["nontrivial"].add(("node-exact", ii == len(xs) - 1, jj == len(ys) - 1))
+            if v != pref * F[ii][jj]:
+                out.append(fail("prop", "2-D: grid value not returned at a grid node" + (" (last row/column)" if (ii > i or jj > j) else ""),
+                                "node (%d,%d) value=%r tabulated*prefactor=%r" % (ii, jj, v, pref * F[ii][jj])))
         if inside:
             lo, hi = min(fp * t for t in c), max(fp * t for t in c)
             over = max(lo - fv, fv - hi, 0)
+            allow = allowance_2d(xs, ys, c, i, j, x, y) * ap
             worst(ctx, "worst_2d_hull", ratio(over, Fm * ap))
-            if over > K_2D * EPS * Fm * ap:
+            worst(ctx, "worst_2d_hull_vs_allowance", float(over / allow) if allow else (0.0 if over == 0 else INF))
+            if over > K_ALLOW * allow:
                 out.append(fail("prop", "2-D: value outside the minimum/maximum of the four surrounding grid values",
-                                "cell (%d,%d) point (%r,%r) value=%r" % (i, j, x, y, v)))
+                                "cell (%d,%d) point (%r,%r) value=%r corners*prefactor in [%r,%r]" % (i, j, x, y, v, float(lo), float(hi))))
             # continuity across the left / lower edge of the cell
             if x == xs[i] and i > 0:
                 xl = na(x, -INF)
@@ -820,8 +870,11 @@ def compare(rq, impl, model, ctx):
             Fm = max(abs(Fraction(F[a][b])) for a in (i, i + 1) for b in (j, j + 1))
             e = abs(Fraction(v) - m)
             worst(ctx, "worst_K_2d", ratio(e, Fm * ap))
+            cc = [Fraction(F[i][j]), Fraction(F[i + 1][j]), Fraction(F[i + 1][j + 1]), Fraction(F[i][j + 1])]
+            allow = allowance_2d(xs, ys, cc, i, j, x, y) * ap
+            worst(ctx, "worst_2d_err_vs_allowance", float(e / allow) if allow else (0.0 if e == 0 else INF))
             ctx["nontrivial"].add((op, fam, sizeclass(len(xs)), qclass(xs, x), qclass(ys, y)))
-            if e > K_2D * EPS * Fm * ap:
+            if e > K_ALLOW * allow:
                 corr.append(fail("corr", "2-D Interpolate differs from the model", "point (%r,%r): %r vs %s" % (x, y, v, float(m))))
     else:
         xs = scaled(P["xs0"], P["xdim"]); ys = scaled(P["ys0"], P["fdim"])
